@@ -346,9 +346,7 @@ func (mw *msgWriter) addFiles(files []*File, isAttachment bool) {
 				mw.encoder.Encode(mw.charset.String(), sanitizeFilename(file.Name))))
 		}
 
-		if _, ok := file.getHeader(HeaderContentTransferEnc); !ok {
-			file.setHeader(HeaderContentTransferEnc, string(encoding))
-		}
+		file.setHeader(HeaderContentTransferEnc, string(encoding))
 
 		if file.Desc != "" {
 			if _, ok := file.getHeader(HeaderContentDescription); !ok {
